@@ -210,8 +210,12 @@ def check_c19(idx: Index, tier: str, res: Result) -> None:
     inner = dicts[0].values[[const_str(k) for k in dicts[0].keys].index("data")]
     written = {const_str(k): v for k, v in zip(inner.keys, inner.values)} if isinstance(inner, ast.Dict) else {}
     read = set()
+    # the record may be reached through a local (stored = <document>["data"])
+    data_names = {n.targets[0].id for n in walk_no_nested(ld.node) if isinstance(n, ast.Assign) and len(n.targets) == 1 and isinstance(n.targets[0], ast.Name)
+                  and isinstance(n.value, ast.Subscript) and const_str(n.value.slice) == "data"}
     for n in walk_no_nested(ld.node):
-        if isinstance(n, ast.Subscript) and isinstance(n.value, ast.Subscript) and const_str(n.value.slice) == "data" and const_str(n.slice):
+        if isinstance(n, ast.Subscript) and const_str(n.slice) and (
+                (isinstance(n.value, ast.Subscript) and const_str(n.value.slice) == "data") or (isinstance(n.value, ast.Name) and n.value.id in data_names)):
             read.add(const_str(n.slice))
     res.check("RECORD", "record keys read are written", read <= set(written), ld.loc(), ld.qual, "reads %s / writes %s" % (sorted(read), sorted(written)),
               "_load_instance reads the keys %s that _save_instance does not write" % sorted(read - set(written)), key="RECORD/FileAdapter/keys")
@@ -499,16 +503,25 @@ def check_c20(idx: Index, tier: str, res: Result) -> None:
               "of the earlier steps and from an empty memo", key="REPLAY/InstanceManager.reconstruct_instance/no-replay")
     # the step after a restore builds a new SdSimulation and applies only the current step's settings
     rss = idx.func(RUNNER, "SdRunner.run_scenario_step")
-    fresh = [g for g in walk_no_nested(rss.node) if isinstance(g, ast.If) and "sd_simulation is None" in src(g.test)]
+    from ..util import nesting_atoms
+
+    def _none_live(a_, t_):
+        return t_ and isinstance(a_, ast.Compare) and len(a_.ops) == 1 and isinstance(a_.ops[0], ast.Is) and (dotted(a_.left) or "").endswith(".sd_simulation") \
+            and isinstance(a_.comparators[0], ast.Constant) and a_.comparators[0].value is None
+    # the statements that run only where no simulation is live (body of `is None`, else of `is not None`)
+    fresh_calls = [c for c in iter_calls(rss.node) if call_name(c) == "change_runspecs" and any(_none_live(a_, t_) for a_, t_ in nesting_atoms(rss.node, c))]
+    fresh = [1] if any(isinstance(n, ast.Assign) and (dotted(n.targets[0]) or "").endswith(".sd_simulation") and
+                       any(_none_live(a_, t_) for a_, t_ in nesting_atoms(rss.node, n)) for n in walk_no_nested(rss.node)) else []
     res.ob("REPLAY", "run_scenario_step rebuilds the simulation when none is live (%d site)" % len(fresh), bool(fresh), nontrivial=False)
     # the simulation rebuilt after a restore continues the *scenario's* run: same start time, stop time and dt as before the crash
     for g in fresh:
-        crs = [c for b in g.body for c in iter_calls(b) if call_name(c) == "change_runspecs"]
+        crs = fresh_calls
         cprm = params(idx.func(SDSIM, "SdSimulation.change_runspecs").node)[1:]
         for c in crs:
             kw = dict(zip(cprm, [src(a) for a in c.args]))
             kw.update({k.arg: src(k.value) for k in c.keywords})
-            ok = all(kw.get(r_, "") == "sc." + r_ for r_ in ("starttime", "stoptime", "dt"))
+            owner = next(((dotted(a_.left) or "").rsplit(".", 1)[0] for a_, t_ in nesting_atoms(rss.node, c) if _none_live(a_, t_)), "sc")
+            ok = all(kw.get(r_, "") == owner + "." + r_ for r_ in ("starttime", "stoptime", "dt"))
             res.check("REPLAY", "a rebuilt simulation keeps the scenario's run specs", ok, rss.loc(c), rss.qual, src(c),
                       "the simulation rebuilt when no live one exists (the first step after a restart) is given %s: it no longer integrates "
                       "from the scenario's start time, so every stock restarts from its initial value at the current step" % kw,
